@@ -56,8 +56,11 @@ def run_history(seed, rnd, steps, visit):
     """Build a world, apply prefill + random ops; call visit(world, step, ops_so_far) after every op."""
     w = W.World(seed)
     pre = w.prefill(rnd)
+    n_fill = len(pre)
     ops = []
     for s in range(steps):
+        if s == n_fill:
+            pre += w.aim_all()
         op = pre[s] if s < len(pre) else w.gen_op(rnd)
         ops.append(op)
         out = w.apply(op)
@@ -110,6 +113,10 @@ def correspondence(ctx):
 
         def visit(w, s, ops, op, out):
             rep.dist['op:%s%s' % (op['op'], '' if out is None else '!' + out)] += 1
+            lines.extend(w.spy.take())
+            for (name, e), ids in W.register_contents(w).items():
+                lines.append(('q reg %s %s' % (name, e)).rstrip())
+                recs.append((seed, s, ('reg', name, e), ids, ops))
             lines.extend(w.snapshot())
             for q in queries_for(w, rnd):
                 lines.append(W.query_line(w, q))
@@ -122,6 +129,15 @@ def correspondence(ctx):
         seed, s, q, impl, ops = rec
         if m == 'bad-op':
             raise C.InfraError('driver rejected query %r' % (q,))
+        if q[0] == 'reg':
+            t = m.split()
+            if t[1] != '1':
+                rep.disagree('registers.alternation', m, 'the message stream switched a point on twice (or off while off)',
+                             {'world': seed, 'ops': ops[:s + 1], 'register': q[1:]})
+            elif [int(x) for x in t[2:]] != impl:
+                rep.disagree('registers.%s' % q[1], m, impl, {'world': seed, 'ops': ops[:s + 1], 'register': q[1:]})
+            rep.case(sig=('reg', q[1], q[2], tuple(impl)) if impl else None, kind='register:%s' % ('held' if impl else 'empty'))
+            continue
         k = kind_of(q, impl)
         if '~' in m:
             rep.fragile += 1
@@ -374,14 +390,74 @@ def spec_avg(c, d, i, r, reload):
     return (c * a + (c - 1) * f + r) / c
 
 
+def indep_params(e, it):
+    """(cycles until reload, duration, forced inactive time, reload time) of an effect on an item, read from the
+    attributes / type data by their meaning.  Cycle counts of crystal turrets are taken from the effect itself."""
+    from eos import ModuleHigh, ModuleMid, ModuleLow
+    from eos.const.eve import AttrId as A
+    from eos.eve_obj.effect.fighter_effect import FighterEffect
+    kind = W.eff_kind(e)
+    ms = lambda v: None if v is None else v / 1000  # noqa: E731
+    dur = ms(it.attrs.get(e.duration_attr_id)) if e.duration_attr_id is not None else None
+    is_mod = isinstance(it, (ModuleHigh, ModuleMid, ModuleLow))
+    if isinstance(e, FighterEffect):
+        ad = it._type.effects_data.get(e.id)
+        cyc = 1 if kind == 'ddKamikaze' else (None if ad is None else (ad.charge_quantity or None))
+        inact = None if ad is None else max(ad.cooldown_time - dur, 0)     # cooldown runs from the activation start
+        return cyc, dur, inact, None
+    inact = ms(it.attrs.get(A.module_reactivation_delay)) or 0
+    rt = ms(it.attrs.get(A.reload_time)) if is_mod else None
+    fueled = kind.startswith('rep:') and kind.split(':')[3] == '1'
+    if kind in ('ddMissiles', 'ddTurret', 'ddDisint') or fueled:
+        empty = math.inf if fueled else None          # a fueled repairer keeps running without fuel
+        ch = it.charge
+        cap, vol, rate = it.attrs.get(A.capacity), (None if ch is None else ch.attrs.get(A.volume)), it.attrs.get(A.charge_rate)
+        if ch is None or cap is None or vol is None or not rate:
+            cyc = empty
+        else:
+            cyc = int(round(cap / vol, 7)) // int(rate) or empty
+    elif kind == 'ddTargetAttack':
+        cyc = e.get_cycles_until_reload(it)
+    else:
+        cyc = math.inf
+    return cyc, dur, inact, rt
+
+
+def indep_volley(e, it):
+    """Volley of the simple weapon kinds from the attributes; None = kind not recomputed here."""
+    from eos.const.eve import AttrId as A
+    kind = W.eff_kind(e)
+    if kind == 'ddSimple':
+        return [it.attrs.get(a, 0) for a in W.DMG]
+    if kind in ('ddTurret', 'ddDisint'):
+        if not indep_params(e, it)[0]:
+            return [0, 0, 0, 0]
+        ch = it.charge
+        m = it.attrs.get(A.dmg_mult)
+        m = 1 if m is None else m
+        spool = it.attrs.get(A.dmg_mult_bonus_max) if kind == 'ddDisint' else None
+        return [ch.attrs.get(a, 0) * m * (1 if spool is None else 1 + spool) for a in W.DMG]
+    return None
+
+
+def indep_amount(e, it):
+    from eos.const.eve import AttrId as A
+    _, layer, _, _, spool = W.eff_kind(e).split(':')
+    amount = it.attrs.get(A.armor_dmg_amount if layer == 'armor' else A.shield_bonus, 0)
+    bonus = it.attrs.get(A.repair_mult_bonus_max) if spool == '1' else None
+    return amount if bonus is None else amount * (1 + bonus)
+
+
 def check_effects(w, rnd, rep, case):
-    """Independent recomputation on the real fit: EHP family from public hp/resists, fit-level volley/dps/rps as sums
-    over independently selected items, effect-level dps/rps as amount / spec_avg of the effect's own parameters."""
+    """Independent recomputation on the real fit: EHP family from public hp/resists; fit-level volley/dps/rps as sums
+    over independently selected items; effect-level dps/rps as amount / spec_avg of independently read parameters."""
+    from eos import DmgProfile
     from eos.eve_obj.effect.dmg_dealer.base import DmgDealerEffect
-    from eos.eve_obj.effect.repairs.base import BaseRepairEffect, LocalArmorRepairEffect, RemoteArmorRepairEffect
+    from eos.eve_obj.effect.repairs import base as RB
     from eos.const.eve import AttrId as A
     fit, st = w.fit, w.fit.stats
     sh = fit.ship
+    res = None
     # --- EHP family
     if sh is not None:
         hp = [sh.attrs.get(a, 0) for a in (A.hp, A.armor_hp, A.shield_capacity)]
@@ -390,7 +466,9 @@ def check_effects(w, rnd, rep, case):
         got_hp, got_res = W.observe(w, ('hp',)), W.observe(w, ('resists',))
         if ok and (isinstance(got_hp, str) or isinstance(got_res, str) or not _close_list(got_hp, hp) or not _close_list(got_res, res)):
             rep.violate('hp/resists %r %r differ from the ship attributes %r %r' % (got_hp, got_res, hp, res), case)
-        if ok:
+        if not ok:
+            res = None
+        else:
             prof = W.rnd_profile(rnd)
             lay = [res[0:4], res[4:8], res[8:12]]
             recv = [sum(p * (1 - r) for p, r in zip(prof, x)) for x in lay]
@@ -415,12 +493,13 @@ def check_effects(w, rnd, rep, case):
             try:
                 iv, idps = list(it.get_volley())[:4], list(it.get_dps(reload))[:4]
                 for e in ([x for x in effs if x.suppress_dds] or effs):
-                    if type(e).get_dps is not DmgDealerEffect.get_dps:
-                        continue
-                    avg = spec_avg(e.get_cycles_until_reload(it), e.get_duration(it), e.get_forced_inactive_time(it),
-                                   e.get_reload_time(it), reload)
                     ev, ed = list(e.get_volley(it))[:4], list(e.get_dps(it, reload))[:4]
-                    want = [0, 0, 0, 0] if avg is None else [x / avg for x in ev]
+                    vol = indep_volley(e, it)
+                    if vol is not None and all(x >= 0 for x in vol) and not _close_list(ev, vol, 1e-8):
+                        rep.violate('effect %s volley %r, recomputed from the attributes %r' % (W.ename(e.id), ev, vol),
+                                    dict(case, item=w.any_id(it)))
+                    avg = spec_avg(*indep_params(e, it), reload)
+                    want = [0, 0, 0, 0] if avg is None or W.eff_kind(e) == 'ddKamikaze' else [x / avg for x in ev]
                     if not _close_list(ed, want, 1e-8):
                         rep.violate('effect %s dps(reload=%s) = %r, volley / average cycle time = %r' % (W.ename(e.id), reload, ed, want),
                                     dict(case, item=w.any_id(it)))
@@ -436,36 +515,36 @@ def check_effects(w, rnd, rep, case):
             if isinstance(gd, str) or not _close_list(gd, tot_d, 1e-8):
                 rep.violate('fit dps(reload=%s) %r differs from the sum over items with a running damage dealer %r' % (reload, gd, tot_d), case)
             rep.dist['oracle:dd-sum%s' % ('' if any(tot_v) else '-zero')] += 1
-    # --- armor repairs (no damage profile): local repairers carried by the ship + remote ones targeting it
-    try:
-        want = 0
-        for it in (items if sh is not None else []):
-            for e in it._type_effects.values():
-                if isinstance(e, LocalArmorRepairEffect) and e.id in it._running_effect_ids and it._solsys_carrier is sh:
-                    want += e.get_rps(it, False)
-        for it in w.fit2._item_iter():
-            if sh is not None and getattr(it, 'target', None) is sh:
-                for e in it._type_effects.values():
-                    if isinstance(e, RemoteArmorRepairEffect) and e.id in it._running_effect_ids and e.is_projectable:
-                        want += e.get_rps(it, False)
-        got = st.get_armor_rps(dmg_profile=None, reload=False)
-    except Exception:
-        return
-    if not C.close(got, want, abs_=1e-9):
-        rep.violate('armor rps %r differs from the sum over current local and projected repairers %r' % (got, want), case)
-    for it in items:
-        for e in it._type_effects.values():
-            if isinstance(e, BaseRepairEffect) and e.id in it._running_effect_ids:
-                try:
-                    for reload in (False, True):
-                        avg = spec_avg(e.get_cycles_until_reload(it), e.get_duration(it), e.get_forced_inactive_time(it),
-                                       e.get_reload_time(it), reload)
-                        got, amount = e.get_rps(it, reload), e.get_rep_amount(it)
-                        if not C.close(got, 0 if avg is None else amount / avg, abs_=1e-9):
-                            rep.violate('repair effect %s rps(reload=%s) = %r, amount / average cycle time = %r' % (
-                                W.ename(e.id), reload, got, amount / avg), dict(case, item=w.any_id(it)))
-                except (ZeroDivisionError, TypeError, AttributeError, KeyError):
-                    pass
+    # --- repairs: local repairers carried by the ship + remote ones targeting it, each amount / average cycle time,
+    #     times the tanking efficiency of the layer when a damage profile is given
+    prof = rnd.choice([None, W.rnd_profile(rnd)])
+    for layer, local, remote, fn, off in (('armor', RB.LocalArmorRepairEffect, RB.RemoteArmorRepairEffect, st.get_armor_rps, 4),
+                                          ('shield', RB.LocalShieldRepairEffect, RB.RemoteShieldRepairEffect, st.get_shield_rps, 8)):
+        for reload in (False, True):
+            try:
+                want = 0
+                pairs = [(it, e) for it in (items if sh is not None else []) for e in it._type_effects.values()
+                         if isinstance(e, local) and e.id in it._running_effect_ids and it._solsys_carrier is sh]
+                pairs += [(it, e) for it in w.fit2._item_iter() if sh is not None and getattr(it, 'target', None) is sh
+                          for e in it._type_effects.values()
+                          if isinstance(e, remote) and e.id in it._running_effect_ids and e.is_projectable]
+                for it, e in pairs:
+                    avg = spec_avg(*indep_params(e, it), reload)
+                    want += 0 if avg is None else indep_amount(e, it) / avg
+                if prof is not None and sh is not None:
+                    if res is None:
+                        continue
+                    recv = sum(p * (1 - r) for p, r in zip(prof, res[off:off + 4]))
+                    if recv <= 1e-6 * sum(prof):
+                        continue
+                    want *= sum(prof) / recv
+                got = fn(dmg_profile=None if prof is None else DmgProfile(*prof), reload=reload)
+            except Exception:
+                continue
+            if not C.close(got, want, rel=1e-8, abs_=1e-9):
+                rep.violate('%s rps(profile=%r, reload=%s) = %r, recomputed from current local and projected repairers: %r' % (
+                    layer, prof, reload, got, want), case)
+            rep.dist['oracle:rps%s' % ('' if want else '-zero')] += 1
     rep.dist['oracle:effects'] += 1
 
 
@@ -528,6 +607,12 @@ def replay(path):
         print('replay names a broken obligation; re-run ./check C04 to re-check it')
         return 0
     case = v['case']
+    if 'cycle_case' in case:
+        ctx = C.Ctx(PID, 'quick', data.get('seed', 0))
+        check_cycle_numbers(ctx)
+        for x in ctx.report.violations[:3]:
+            print('REPRODUCED:', x['what'], x['case'])
+        return 1 if ctx.report.violations else 0
     w = W.World(case['world'])
     for op in case['ops']:
         w.apply(op)
